@@ -32,28 +32,86 @@ theorem startsNL_hosts {w : Text} (h : startsNL w = true) :
   | nil => simp [allSpaces]
   | cons a r => simp
 
+/-! `fits` through its splits, `hosts` kept opaque -/
+
+theorem fits_one (p : Pat) (w : Text) : fits p [w] = hostsAny p w := rfl
+
+theorem fits_split {p : Pat} {w w' : Text} {ws : List Text} (q : Pat × Pat) (hq : q ∈ splits p)
+    (h1 : hostsAny q.1 w = true) (h2 : fits q.2 (w' :: ws) = true) :
+    fits p (w :: w' :: ws) = true := by
+  simp only [fits, List.any_eq_true, Bool.and_eq_true]
+  exact ⟨q, hq, h1, h2⟩
+
+theorem splits_nil_left (p : Pat) : (([] : Pat), p) ∈ splits p := by
+  cases p <;> simp [splits]
+
+theorem splits_one (a : Slot × Bool) (r : Pat) : ([a], r) ∈ splits (a :: r) := by
+  simp only [splits, List.mem_cons, List.mem_map]
+  exact Or.inr ⟨([], r), splits_nil_left r, rfl⟩
+
+/-- the first run holds only ignored blanks -/
+theorem fits_skip {p : Pat} {w w' : Text} {ws : List Text} (h1 : allSpaces w = true)
+    (h2 : fits p (w' :: ws) = true) : fits p (w :: w' :: ws) = true :=
+  fits_split ([], p) (splits_nil_left p) (by simpa [hostsAny, choices, hosts] using h1) h2
+
+/-- the first run holds the first slot -/
+theorem fits_first {a : Slot × Bool} {r : Pat} {w w' : Text} {ws : List Text}
+    (h1 : hosts [a.1] w = true) (h2 : fits r (w' :: ws) = true) :
+    fits (a :: r) (w :: w' :: ws) = true := by
+  refine fits_split ([a], r) (splits_one a r) ?_ h2
+  obtain ⟨s, o⟩ := a
+  cases o <;> simp [hostsAny, choices, h1]
+
+theorem hostsAny_nil (w : Text) : hostsAny [] w = allSpaces w := by
+  simp [hostsAny, choices, hosts]
+
+theorem hostsAny_nl (w : Text) : hostsAny patNL w = hosts [.nl] w := by
+  simp [hostsAny, choices, patNL]
+
+theorem hostsAny_ows {w : Text} (h : w ≠ [] ∨ allSpaces w = true) : hostsAny patOWS w = true := by
+  simp only [hostsAny, choices, patOWS, List.map, List.append_nil, ite_true, List.cons_append,
+    List.nil_append, List.any_cons, List.any_nil, Bool.or_false, hosts, Bool.or_eq_true,
+    Bool.not_eq_true', List.isEmpty_eq_false_iff]
+  exact h
+
+theorem hostsAny_nlows {w : Text} (h : startsNL w = true) : hostsAny (patNL ++ patOWS) w = true := by
+  have := startsNL_hosts h
+  simpa [hostsAny, choices, patNL, patOWS] using this
+
+theorem hostsAny_nlows_of_nl {w : Text} (h : hosts [.nl] w = true) :
+    hostsAny (patNL ++ patOWS) w = true := by
+  simp [hostsAny, choices, patNL, patOWS, h]
+
+theorem hostsAny_ws {w : Text} (h : w ≠ []) : hostsAny patWS w = true := by
+  simp [hostsAny, choices, patWS, hosts, h]
+
+theorem allSpaces_nil : allSpaces [] = true := rfl
+
 /-! gap classes → slot patterns -/
 
 theorem fits_inline {g : List GTok} (h : inlineGap g = true) : gapFits patWS g = true := by
   match g, h with
   | [.white w], h =>
-    simp only [inlineGap, Bool.and_eq_true] at h
-    simp [gapFits, runsOf, fits, hostsAny, choices, patWS, hosts, h.1]
+    simp only [inlineGap, Bool.and_eq_true, Bool.not_eq_true', List.isEmpty_eq_false_iff] at h
+    simp only [gapFits, runsOf, List.append_nil, fits_one]
+    exact hostsAny_ws h.1
 
 theorem fits_multA {g : List GTok} (h : multGapA g = true) : gapFits patNone g = true := by
   match g, h with
   | [], _ => rfl
   | [.white w], h =>
     simp only [multGapA] at h
-    simp [gapFits, runsOf, fits, hostsAny, choices, patNone, hosts, h]
+    simp only [gapFits, runsOf, List.append_nil, fits_one, patNone, hostsAny_nil, h]
 
 theorem fits_multB {g : List GTok} (h : multGapB g = true) : gapFits patOWS g = true := by
   match g, h with
   | [], _ => rfl
   | [.white w], h =>
+    simp only [gapFits, runsOf, List.append_nil, fits_one]
+    apply hostsAny_ows
     cases w with
-    | nil => rfl
-    | cons c w => simp [gapFits, runsOf, fits, hostsAny, choices, patOWS, hosts]
+    | nil => exact Or.inr rfl
+    | cons c w => exact Or.inl (by simp)
 
 theorem multB_noNL {g : List GTok} (h : multGapB g = true) :
     gapFits patNL g = false ∧ gapFits (patNL ++ patOWS) g = false := by
@@ -70,53 +128,199 @@ theorem fits_trail {g : List GTok} (h : trailGap g = true) : gapFits patNone g =
   | [], _ => rfl
   | [.white w], h =>
     simp only [trailGap] at h
-    simp [gapFits, runsOf, fits, hostsAny, choices, patNone, hosts, h]
+    simp only [gapFits, runsOf, List.append_nil, fits_one, patNone, hostsAny_nil, h]
   | [.comment _], _ => rfl
   | [.white w, .comment _], h =>
     simp only [trailGap] at h
-    simp [gapFits, runsOf, fits, splits, hostsAny, choices, patNone, hosts, h, allSpaces]
+    simp only [gapFits, runsOf, List.append_nil, patNone]
+    exact fits_skip h rfl
 
 theorem fits_sepOp {g : List GTok} (h : sepGapOp g = true) :
     gapFits (patNL ++ patOWS) g = true := by
   match g, h with
   | [.white w], h =>
     simp only [sepGapOp] at h
-    have := startsNL_hosts h
-    simpa [gapFits, runsOf, fits, hostsAny, choices, patNL, patOWS] using this
+    simp only [gapFits, runsOf, List.append_nil, fits_one]
+    exact hostsAny_nlows h
   | [.comment _, .white w], h =>
     simp only [sepGapOp] at h
-    have := startsNL_hosts h
-    simp only [gapFits, runsOf, fits, splits, hostsAny, choices, patNL, patOWS, List.nil_append,
-      List.cons_append, List.append_nil, List.map, List.any_cons, hosts, allSpaces, List.all_nil,
-      Bool.true_and, List.any_nil, Bool.or_false, ite_true, List.append_nil] at *
-    simp [this]
+    simp only [gapFits, runsOf, List.append_nil]
+    exact fits_skip rfl (by rw [fits_one]; exact hostsAny_nlows h)
   | [.white s, .comment _, .white w], h =>
     simp only [sepGapOp, Bool.and_eq_true, Bool.or_eq_true] at h
-    have hw := startsNL_hosts h.2
-    have hne := startsNL_ne_nil h.2
+    simp only [gapFits, runsOf, List.append_nil]
     rcases h.1 with hs | hs
-    · simp only [gapFits, runsOf, fits, splits, hostsAny, choices, patNL, patOWS, List.nil_append,
-        List.cons_append, List.append_nil, List.map, List.any_cons, hosts, List.any_nil,
-        Bool.or_false, ite_true] at *
-      simp [hs, hw]
-    · simp only [emptyLines] at hs
-      simp only [gapFits, runsOf, fits, splits, hostsAny, choices, patNL, patOWS, List.nil_append,
-        List.cons_append, List.append_nil, List.map, List.any_cons, List.any_nil,
-        Bool.or_false, ite_true] at *
-      simp [hs, hosts, hne]
+    · exact fits_skip hs (by rw [fits_one]; exact hostsAny_nlows h.2)
+    · exact fits_first (a := (.nl, false)) hs
+        (by rw [fits_one]; exact hostsAny_ows (Or.inl (startsNL_ne_nil h.2)))
   | [.comment _, .white w1, .comment _, .white w2], h =>
     simp only [sepGapOp, Bool.and_eq_true, emptyLines] at h
-    have hne := startsNL_ne_nil h.2
-    simp only [gapFits, runsOf, fits, splits, hostsAny, choices, patNL, patOWS, List.nil_append,
-      List.cons_append, List.append_nil, List.map, List.any_cons, List.any_nil,
-      Bool.or_false, ite_true] at *
-    simp [h.1, hosts, hne, allSpaces]
+    simp only [gapFits, runsOf, List.append_nil]
+    exact fits_skip rfl (fits_first (a := (.nl, false)) h.1
+      (by rw [fits_one]; exact hostsAny_ows (Or.inl (startsNL_ne_nil h.2))))
   | [.white s, .comment _, .white w1, .comment _, .white w2], h =>
     simp only [sepGapOp, Bool.and_eq_true, emptyLines] at h
-    have hne := startsNL_ne_nil h.2
-    simp only [gapFits, runsOf, fits, splits, hostsAny, choices, patNL, patOWS, List.nil_append,
-      List.cons_append, List.append_nil, List.map, List.any_cons, List.any_nil,
-      Bool.or_false, ite_true] at *
-    simp [h.1.1, h.1.2, hosts, hne]
+    simp only [gapFits, runsOf, List.append_nil]
+    exact fits_skip h.1.1 (fits_first (a := (.nl, false)) h.1.2
+      (by rw [fits_one]; exact hostsAny_ows (Or.inl (startsNL_ne_nil h.2))))
+
+theorem fits_sepStrict {g : List GTok} (h : sepGapStrict g = true) : gapFits patNL g = true := by
+  match g, h with
+  | [.white w], h =>
+    simp only [sepGapStrict, emptyLines] at h
+    simp only [gapFits, runsOf, List.append_nil, fits_one, hostsAny_nl, h]
+  | [.comment _, .white w], h =>
+    simp only [sepGapStrict, emptyLines] at h
+    simp only [gapFits, runsOf, List.append_nil]
+    exact fits_skip rfl (by rw [fits_one, hostsAny_nl]; exact h)
+  | [.white s, .comment _, .white w], h =>
+    simp only [sepGapStrict, emptyLines, Bool.and_eq_true] at h
+    simp only [gapFits, runsOf, List.append_nil]
+    exact fits_skip h.1 (by rw [fits_one, hostsAny_nl]; exact h.2)
+
+theorem fits_leadOp {g : List GTok} (h : leadGapOp g = true) : gapFits patOWS g = true := by
+  match g, h with
+  | [], _ => rfl
+  | [.white w], _ =>
+    simp only [gapFits, runsOf, List.append_nil, fits_one]
+    cases w with
+    | nil => rfl
+    | cons c w => exact hostsAny_ows (Or.inl (by simp))
+  | [.comment _, .white w], h =>
+    simp only [leadGapOp, Bool.not_eq_true', List.isEmpty_eq_false_iff] at h
+    simp only [gapFits, runsOf, List.append_nil]
+    exact fits_skip rfl (by rw [fits_one]; exact hostsAny_ows (Or.inl h))
+  | [.white s, .comment _, .white w], h =>
+    simp only [leadGapOp, Bool.and_eq_true, Bool.not_eq_true', List.isEmpty_eq_false_iff] at h
+    simp only [gapFits, runsOf, List.append_nil]
+    exact fits_skip h.1 (by rw [fits_one]; exact hostsAny_ows (Or.inl h.2))
+
+theorem fits_leadStrict {g : List GTok} (h : leadGapStrict g = true) : gapFits patNone g = true := by
+  match g, h with
+  | [], _ => rfl
+  | [.white w], h =>
+    simp only [leadGapStrict] at h
+    simp only [gapFits, runsOf, List.append_nil, fits_one, patNone, hostsAny_nil, h]
+
+/-! ### the explicit class is accepted -/
+
+theorem goodLine_lineFits {l : DLine} (h : goodLine l = true) : lineFits l = true := by
+  simp only [goodLine, Bool.and_eq_true] at h
+  obtain ⟨⟨h1, h2⟩, h3⟩ := h
+  have hin : innerFits l.cmd l.g1 l.g2 = true := by
+    cases hc : l.cmd with
+    | full c n t =>
+      rw [hc] at h2
+      simp only [innerFits, Bool.and_eq_true]
+      exact ⟨fits_inline h1, fits_inline h2⟩
+    | skill c n => exact fits_inline h1
+    | time c t => exact fits_inline h1
+    | console s => exact fits_inline h1
+  simp only [lineFits, hin, Bool.true_and]
+  cases hm : l.mult with
+  | none => rfl
+  | some m =>
+    rw [hm] at h3
+    simp only [Bool.and_eq_true] at h3 ⊢
+    exact ⟨⟨fits_multA h3.1.1, fits_multB h3.1.2⟩, h3.2⟩
+
+theorem goodLine_unamb {l : DLine} (h : goodLine l = true) (hx : xfree l = true) :
+    unamb l = true := by
+  simp only [goodLine, Bool.and_eq_true] at h
+  obtain ⟨_, h3⟩ := h
+  cases hm : l.mult with
+  | none =>
+    simp only [xfree, hm] at hx
+    simp only [unamb, hm]
+    cases hc : l.cmd <;> simp_all
+  | some m =>
+    rw [hm] at h3
+    simp only [Bool.and_eq_true] at h3
+    have := multB_noNL h3.1.2
+    simp [unamb, hm, this.1, this.2]
+
+theorem leadPat_strict {l : DLine} (h : isStrictLine l = true) (base : Pat) : leadPat base l = base := by
+  simp only [isStrictLine, Bool.or_eq_true, Bool.not_eq_true'] at h
+  unfold leadPat
+  cases hm : l.mult with
+  | some m => rfl
+  | none =>
+    simp only [hm, Option.isSome_none, Bool.false_eq_true, false_or] at h
+    simp [leadExtra, h]
+
+theorem leadPat_op {l : DLine} (h : isStrictLine l = false) (base : Pat) :
+    leadPat base l = base ++ patOWS := by
+  simp only [isStrictLine, Bool.or_eq_false_iff, Bool.not_eq_false'] at h
+  unfold leadPat
+  cases hm : l.mult with
+  | some m => simp [hm] at h
+  | none => simp [leadExtra, h.2]
+
+theorem good_lead {first : Bool} {before : List GTok} {l : DLine}
+    (h : (if first then (if isStrictLine l then leadGapStrict before else leadGapOp before)
+          else (if isStrictLine l then sepGapStrict before else sepGapOp before)) = true) :
+    gapFits (leadPat (if first then patNone else patNL) l) before = true := by
+  cases hs : isStrictLine l with
+  | true =>
+    rw [leadPat_strict hs]
+    cases first with
+    | true => simp only [hs, ite_true] at h; exact fits_leadStrict h
+    | false => simp only [hs, ite_true, Bool.false_eq_true, ite_false] at h; exact fits_sepStrict h
+  | false =>
+    rw [leadPat_op hs]
+    cases first with
+    | true =>
+      simp only [hs, ite_true, Bool.false_eq_true, ite_false] at h
+      exact fits_leadOp h
+    | false =>
+      simp only [hs, Bool.false_eq_true, ite_false] at h
+      exact fits_sepOp h
+
+theorem good_layoutOk : ∀ (ls : List DLine) (first : Bool) (before : List GTok),
+    goodLayoutFrom first before ls = true →
+    layoutOk (if first then patNone else patNL) before ls = true := by
+  intro ls
+  induction ls with
+  | nil => intro first before h; simp [goodLayoutFrom] at h
+  | cons l ls ih =>
+    intro first before h
+    cases ls with
+    | nil =>
+      simp only [goodLayoutFrom, Bool.and_eq_true] at h
+      simp only [layoutOk, Bool.and_eq_true]
+      exact ⟨⟨good_lead h.1.1, goodLine_lineFits h.1.2⟩, fits_trail h.2⟩
+    | cons l' ls' =>
+      simp only [goodLayoutFrom, Bool.and_eq_true] at h
+      simp only [layoutOk, Bool.and_eq_true]
+      exact ⟨⟨good_lead h.1.1, goodLine_lineFits h.1.2⟩, by simpa using ih false l.after h.2⟩
+
+theorem good_goodLine : ∀ (ls : List DLine) (first : Bool) (before : List GTok),
+    goodLayoutFrom first before ls = true → ∀ l ∈ ls, goodLine l = true := by
+  intro ls
+  induction ls with
+  | nil => intro _ _ _ l hl; cases hl
+  | cons l ls ih =>
+    intro first before h x hx
+    cases ls with
+    | nil =>
+      simp only [goodLayoutFrom, Bool.and_eq_true] at h
+      simp only [List.mem_singleton] at hx
+      subst hx; exact h.1.2
+    | cons l' ls' =>
+      simp only [goodLayoutFrom, Bool.and_eq_true] at h
+      rcases List.mem_cons.mp hx with rfl | hx'
+      · exact h.1.2
+      · exact ih false l.after h.2 x hx'
+
+/-! ### the parse of a decorated text -/
+
+theorem parseRawWith_decorated (base : Pat) (lead : List GTok) (ls : List DLine)
+    (hsep : separated (toksOf lead ls) = true) (hun : ∀ l ∈ ls, unamb l = true) :
+    parseRawWith base (unlex (toksOf lead ls)) =
+      if layoutOk base lead ls then pick [expand ls] else .error .syntax := by
+  unfold parseRawWith
+  rw [lex_unlex _ hsep]
+  simp only [group_toksOf, chunk_itemsOf, layout_exact ls hun]
+  split <;> rfl
 
 end Simaple.Dsl
